@@ -65,7 +65,3 @@ func executeModes(d *Data) (*violation, *stats) {
 	}
 	return nil, first
 }
-
-func mapOrderEvidence(st map[string]int64) any {
-	return map[string]any{"build": "map-order: every map range of gojq and gojq/cli rewritten to ask the simulator for the order", "modes": "sorted, reverse, rotated by one, seeded shuffle", "map_ranges_executed": st["map_ranges_executed"]}
-}
